@@ -101,7 +101,15 @@ InitDist ==
   \/ \E u \in Units : \E rb \in RaFew(u) : \E b \in DecB(u) : \E k \in Ks(u) : \E m \in Ms :
         c = DC("ident", u, k, Pt(EA(rb, m), EA(b, Inward(b, m))), Pt(EA(rb, m), EA(b, Inward(b, m))))
 
+InitCapSelf == \E t \in CapThetas10 : \E rel \in SelfRels : \E sg \in {-1, 1} : \E conv \in {"radec", "vector"} :
+                  /\ (rel = "antipode-negated" => conv = "vector")
+                  /\ c = [kind |-> "capself", theta10 |-> t, rel |-> rel, sgn |-> sg, conv |-> conv]
+ExpCapSelf(cc) == [cmhalves |-> cc.sgn * CapCmHalves(cc.theta10), sep10 |-> SelfSep10(cc.rel),
+                   dist10 |-> CapSelfDist10(cc.theta10, cc.rel, cc.sgn), inside |-> CapSelfInside(cc.theta10, cc.rel, cc.sgn),
+                   tol |-> PosTolNdeg(TRUE)]
+
 Expected(cc) == CASE cc.kind = "stripe" -> ExpStripe(cc)
+                  [] cc.kind = "capself" -> ExpCapSelf(cc)
                   [] cc.kind = "anchor" -> ExpAnchor(cc)
                   [] cc.kind = "vecanchor" -> ExpVecAnchor(cc)
                   [] cc.kind = "dist" -> ExpectedDist(cc)
@@ -110,6 +118,7 @@ Init == /\ \/ "stripe" \in Parts /\ InitStripe
            \/ "anchor" \in Parts /\ InitAnchor
            \/ "vecanchor" \in Parts /\ InitVecAnchor
            \/ "dist" \in Parts /\ InitDist
+           \/ "capself" \in Parts /\ InitCapSelf
         /\ exp = Expected(c)
 Next == UNCHANGED <<c, exp>>
 
@@ -158,6 +167,14 @@ C18_IntForms == IsDist => /\ (c.fam = "intgrid" => {"int64", "int32", "int16", "
                                 EAIntegral(x) /\ FormLo(f) <= x.b \div 8 /\ x.b \div 8 <= FormHi(f)
                           /\ ((\E x \in {c.p.ra, c.p.dec, c.q.ra, c.q.dec} : x.b < 0) => exp.forms \cap {"uint8", "uint16", "uint32", "uint64"} = {})
 
+(* the centre and its antipode are half a turn apart; the complement negates; inside <=> distance >= 0;  *)
+(* the centre is inside the cap and outside its complement, the antipode the other way round             *)
+C18_CapSelf == c.kind = "capself" =>
+   /\ CapSelfDist10(c.theta10, "coincident", c.sgn) - CapSelfDist10(c.theta10, "antipode", c.sgn) = c.sgn * 1800
+   /\ CapSelfDist10(c.theta10, c.rel, -c.sgn) = -exp.dist10
+   /\ exp.inside = (exp.dist10 >= 0) /\ exp.dist10 # 0
+   /\ exp.inside = ((c.rel = "coincident") = (c.sgn > 0))
+   /\ AbsI(exp.cmhalves) \in 1..3
 Dot3(a, b) == a[1] * b[1] + a[2] * b[2] + a[3] * b[3]
 C18_VecAnchorUnit == IsVecAnchor => Dot3(exp.x, exp.x) = 1
 C18_VecAnchorPole == (IsVecAnchor /\ AbsI(c.lat) = 900) => exp.x = <<0, 0, SgnI(c.lat)>>
